@@ -16,6 +16,16 @@ type StrCase struct {
 	Op     string // generator / mutation operator chain
 }
 
+// caseSteps is the replayable history of a case: the strings the worker parsed just before it as part of the same
+// history-dependent family (w.Pre, set by the generator), then the case itself.
+func caseSteps(w *Worker, sc StrCase) []Step {
+	var st []Step
+	for _, p := range w.Pre {
+		st = append(st, Step{Op: "parse", S: p})
+	}
+	return append(st, Step{Op: "parse", S: sc.S})
+}
+
 // PerVer is what was observed / expected for one (string, version) pair.
 type PerVer struct {
 	Obj      probe.Obj
@@ -292,8 +302,11 @@ func RunStream(c *Ctx, cfg StreamCfg, handle func(w *Worker, sc StrCase, res *[s
 			c.mu.Unlock()
 			c.Parallel("hash-collision-pairs-"+v.Name, len(pairs), 1, func(w *Worker, i int) {
 				for rep := 0; rep < 3; rep++ {
+					w.Pre = []string{pairs[i].B}
 					do(w, StrCase{pairs[i].A, vi, "hash-collision-pair:" + pairs[i].How})
+					w.Pre = []string{pairs[i].A}
 					do(w, StrCase{pairs[i].B, vi, "hash-collision-pair:" + pairs[i].How})
+					w.Pre = nil
 				}
 			})
 		}
@@ -671,11 +684,11 @@ func CheckC01(c *Ctx) {
 			r := &res[vi]
 			ver := spec.Versions[vi].Name
 			if r.Panic != nil {
-				c.Violate(Violation{Kind: "parse-panic", Version: ver, Steps: parseSteps(sc.S), Expected: "no panic", Observed: r.Panic.Val, Detail: map[string]any{"gen": sc.Op}})
+				c.Violate(Violation{Kind: "parse-panic", Version: ver, Steps: caseSteps(w, sc), Expected: "no panic", Observed: r.Panic.Val, Detail: map[string]any{"gen": sc.Op}})
 				continue
 			}
 			if (r.Obj == nil) == (r.Err == nil) {
-				c.Violate(Violation{Kind: "parse-contract", Version: ver, Steps: parseSteps(sc.S), Expected: "(non-nil,nil) or (nil,non-nil)",
+				c.Violate(Violation{Kind: "parse-contract", Version: ver, Steps: caseSteps(w, sc), Expected: "(non-nil,nil) or (nil,non-nil)",
 					Observed: fmt.Sprintf("object nil=%v error=%v", r.Obj == nil, r.Err), Detail: map[string]any{"gen": sc.Op}})
 				continue
 			}
@@ -685,7 +698,7 @@ func CheckC01(c *Ctx) {
 				if r.OK {
 					kind = "rejects-well-formed"
 				}
-				c.Violate(Violation{Kind: kind, Version: ver, Steps: parseSteps(sc.S), Expected: fmt.Sprintf("accept=%v (grammar of v%s)", r.OK, ver),
+				c.Violate(Violation{Kind: kind, Version: ver, Steps: caseSteps(w, sc), Expected: fmt.Sprintf("accept=%v (grammar of v%s)", r.OK, ver),
 					Observed: fmt.Sprintf("accept=%v err=%v", acc, r.Err), Detail: map[string]any{"gen": sc.Op}})
 			}
 			if acc {
@@ -757,7 +770,7 @@ func CheckC06(c *Ctx) {
 					if !r.Explicit[m] {
 						how = "omitted (not defined)"
 					}
-					c.Violate(Violation{Kind: "get-after-parse", Version: v.Name, Steps: append(parseSteps(sc.S), Step{Op: "get", S: me.Abv}),
+					c.Violate(Violation{Kind: "get-after-parse", Version: v.Name, Steps: append(caseSteps(w, sc), Step{Op: "get", S: me.Abv}),
 						Expected: fmt.Sprintf("Get(%q) = %q (%s)", me.Abv, want, how), Observed: obs, Detail: map[string]any{"gen": sc.Op, "metric": me.Abv}})
 				}
 				if r.Explicit[m] {
@@ -835,7 +848,7 @@ func CheckC08(c *Ctx) {
 			got, p := probe.SafeVector(r.Obj)
 			w.Leave()
 			w.Eval()
-			steps := append(parseSteps(sc.S), Step{Op: "vector"})
+			steps := append(caseSteps(w, sc), Step{Op: "vector"})
 			if p != nil {
 				c.Violate(Violation{Kind: "vector-panic", Version: v.Name, Steps: steps, Expected: want, Observed: "panic: " + p.Val})
 				continue
@@ -930,7 +943,7 @@ func CheckC13(c *Ctx) {
 		case 1:
 			w.Count("accepted-by-exactly-one")
 		default:
-			c.Violate(Violation{Kind: "accepted-by-two-versions", Steps: parseSteps(sc.S), Expected: "at most one parser accepts", Observed: fmt.Sprint("accepted by ", acceptedBy(res)), Detail: map[string]any{"gen": sc.Op}})
+			c.Violate(Violation{Kind: "accepted-by-two-versions", Steps: caseSteps(w, sc), Expected: "at most one parser accepts", Observed: fmt.Sprint("accepted by ", acceptedBy(res)), Detail: map[string]any{"gen": sc.Op}})
 		}
 		if sc.Op == "header-x-body" || strings.HasPrefix(sc.Op, "mut:header") || sc.Op == "cross-version-body" {
 			w.Count("header-variant-strings")
@@ -954,10 +967,10 @@ func CheckC13(c *Ctx) {
 				}
 				acc := err == nil && o != nil
 				if vj == vi && !acc {
-					c.Violate(Violation{Kind: "own-vector-rejected", Version: api.Ver.Name, Steps: append(parseSteps(sc.S), Step{Op: "vector"}, Step{Op: "parse", S: vec}), Expected: "accepted by its own version", Observed: fmt.Sprint(err)})
+					c.Violate(Violation{Kind: "own-vector-rejected", Version: api.Ver.Name, Steps: append(caseSteps(w, sc), Step{Op: "vector"}, Step{Op: "parse", S: vec}), Expected: "accepted by its own version", Observed: fmt.Sprint(err)})
 				}
 				if vj != vi && acc {
-					c.Violate(Violation{Kind: "vector-accepted-by-other-version", Version: api.Ver.Name, Steps: append(parseSteps(sc.S), Step{Op: "vector"}),
+					c.Violate(Violation{Kind: "vector-accepted-by-other-version", Version: api.Ver.Name, Steps: append(caseSteps(w, sc), Step{Op: "vector"}),
 						Expected: "Vector() of v" + spec.Versions[vi].Name + " rejected by v" + api.Ver.Name, Observed: "accepted: " + vec})
 				}
 			}
